@@ -606,7 +606,13 @@ impl Interface {
 
         #[cfg(feature = "proto-ipv6-slaac")]
         if self.inner.slaac_enabled {
-            res = res.min(self.inner.slaac.poll_at(timestamp));
+            // `Option::min` orders `None` before `Some(_)`: a SLAAC state without a
+            // deadline must not hide the sockets' deadlines (and vice versa).
+            res = match (res, self.inner.slaac.poll_at(timestamp)) {
+                (Some(a), Some(b)) => Some(a.min(b)),
+                (a, None) => a,
+                (None, b) => b,
+            };
         }
 
         res
